@@ -242,7 +242,7 @@ func init() {
 					}
 				}
 				// no successful return bypasses the append, and the append is not reachable without an AddTxIn
-				for _, p := range ReturnPaths(fn, 0, isNilErr) {
+				for _, p := range SuccessReturns(fn) {
 					if !InstrBefore(ap, p.Ret) {
 						okPair = false
 					}
